@@ -75,11 +75,17 @@ func (e *Engine) solveFunc(fr *FuncResult, obs []*Oblig, cfg solveCfg) error {
 		return nil
 	}
 	base := filepath.Join(cfg.outDir, sanitize(fr.Short))
-	var sb strings.Builder
-	sb.WriteString(scriptHeader)
-	sb.WriteString(e.prelude)
-	sb.WriteString(fr.Script)
-	common := sb.String()
+	// An obligation is checked against the script prefix that existed when it arose (ScriptPos):
+	// facts derived later - in particular the obligation's own clause, once assumed - are not
+	// available to it.
+	head := scriptHeader + e.prelude
+	commonFor := func(o *Oblig) string {
+		p := o.ScriptPos
+		if p > len(fr.Script) {
+			p = len(fr.Script)
+		}
+		return head + fr.Script[:p]
+	}
 	// two batches run side by side: the real obligations, and the guards (covers and canaries),
 	// which are expected to be satisfiable and get a short per-query budget
 	var mainObs, guardObs []*Oblig
@@ -95,10 +101,21 @@ func (e *Engine) solveFunc(fr *FuncResult, obs []*Oblig, cfg solveCfg) error {
 		if len(list) == 0 {
 			return ans, 0, nil
 		}
-		batch := common
+		var bb strings.Builder
+		bb.WriteString(head)
+		pos := 0
 		for _, o := range list {
-			batch += "; " + o.Name + "\n" + obligQuery(o)
+			p := o.ScriptPos
+			if p > len(fr.Script) {
+				p = len(fr.Script)
+			}
+			if p > pos {
+				bb.WriteString(fr.Script[pos:p])
+				pos = p
+			}
+			bb.WriteString("; " + o.Name + "\n" + obligQuery(o))
 		}
+		batch := bb.String()
 		file := base + "." + tag + ".smt2"
 		if err := os.WriteFile(file, []byte(batch), 0o644); err != nil {
 			return nil, 0, err
@@ -166,7 +183,7 @@ func (e *Engine) solveFunc(fr *FuncResult, obs []*Oblig, cfg solveCfg) error {
 			defer wg.Done()
 			sem <- struct{}{}
 			defer func() { <-sem }()
-			e.solveOne(common, base, o, cfg)
+			e.solveOne(commonFor(o), base, o, cfg)
 		}(o)
 	}
 	wg.Wait()
@@ -181,7 +198,7 @@ func (e *Engine) solveFunc(fr *FuncResult, obs []*Oblig, cfg solveCfg) error {
 				defer wg.Done()
 				sem <- struct{}{}
 				defer func() { <-sem }()
-				e.confirm(common, base, o, cfg)
+				e.confirm(commonFor(o), base, o, cfg)
 			}(o)
 		}
 		wg.Wait()
